@@ -12,6 +12,7 @@
 package main
 
 import (
+	"context"
 	"crypto/sha256"
 	"encoding/hex"
 	"encoding/json"
@@ -907,7 +908,9 @@ func runCheck(id, tier string) int {
 
 // replayCrash re-runs a case that killed the process and checks it dies the same way.
 func replayCrash(bin, id, path, wantSig string) (bool, string) {
-	cmd := exec.Command(bin, "-prop", id, "-replay", path, "-out", os.DevNull)
+	ctx, cancel := context.WithTimeout(context.Background(), 10*time.Minute)
+	defer cancel()
+	cmd := exec.CommandContext(ctx, bin, "-prop", id, "-replay", path, "-out", os.DevNull)
 	out, _ := cmd.CombinedOutput()
 	if msg, frame, ok := crashInfo(out); ok {
 		return true, id + "|process-crash|" + msg + "|in=" + frame
@@ -921,8 +924,15 @@ var lastReplayNotes []string
 func replayOnce(bin, id, path string) (bool, string) {
 	out := path + fmt.Sprintf(".%d.out", os.Getpid())
 	defer os.Remove(out)
-	cmd := exec.Command(bin, "-prop", id, "-replay", path, "-out", out)
+	// a replayed case may hang the server under test (that is what some violations are):
+	// never wait for it longer than ten minutes
+	ctx, cancel := context.WithTimeout(context.Background(), 10*time.Minute)
+	defer cancel()
+	cmd := exec.CommandContext(ctx, bin, "-prop", id, "-replay", path, "-out", out)
 	cmd.Run()
+	if ctx.Err() != nil {
+		return false, "<replay did not finish within 10 minutes>"
+	}
 	b, err := os.ReadFile(out)
 	if err != nil {
 		return false, "<no result>"
